@@ -84,6 +84,7 @@ void rt_noyield_end (void);
 void *rt_malloc (size_t n);                /* arena allocation (also behind malloc in code under test) */
 void rt_free (void *p);
 int  rt_is_freed (const void *p);
+int  rt_block_owner (const void *p);       /* fiber that allocated the arena block containing p, or -1 */
 void rt_name (const void *p, size_t n, const char *name);   /* give an address range a symbolic name */
 const char *rt_addr_name (const void *p, char *buf, size_t n);
 const char *rt_fn_name (const void *pc, char *buf, size_t n);
